@@ -21,7 +21,7 @@ THEOREMS = [
     "quote_injective", "key_injective", "cachedPath_injective",
     "test_pkg_never_cached", "stale_is_miss", "damage_is_miss", "missing_is_miss", "load_sound", "store_then_load",
     "crash_atomic", "temp_ne_final", "failed_store_keeps_final", "load_provenance",
-    "load_depends_only_on_envelope", "load_hit_is_exact_seal", "damaged_never_fresh",
+    "adhoc_never_loaded", "load_depends_only_on_envelope", "load_hit_is_exact_seal", "damaged_never_fresh",
     # repaired defects: the old path.Join key scheme and path.Clean
     "clean_idempotent", "clean_rooted_no_dot_elements", "clean_id_of_good",
     "old_key_injective_counterexample", "old_key_injective_tags_counterexample", "old_key_injective_partial",
@@ -601,6 +601,102 @@ def parse_build(line):
     return dict(kv.split("=", 1) for kv in line.split()[1:])
 
 
+FILE_PROG = '''package main
+
+import "unicode/utf8"
+
+type T%(n)s struct{ v int }
+
+func (t T%(n)s) Get() int { return t.v + %(k)d }
+
+func main() {
+	println("%(marker)s", T%(n)s{%(k)d}.Get(), utf8.RuneLen(%(k)d))
+}
+'''
+
+
+def run_file_mode(chk, tier):
+    """FILE-ARGUMENT mode: `gopherjs build x.go` and `gopherjs run x.go` both call Session.BuildFiles (they differ only in the
+    output path), which builds an ad-hoc package with the import path "main" for every program. Sequences over different
+    single-file programs, every build in a fresh Session, one shared cache directory; each build must equal the no-cache
+    build of the same file and the ad-hoc package must never be loaded from the cache."""
+    work = C.scratch("gv-c20-m")
+    names = ["a", "b", "c"]
+    tag = chk.rng.randrange(10 ** 6)
+    marker = {n: "MARK-%s-%d" % (n.upper(), tag) for n in names}
+    orders = [("a", "b"), ("b", "a"), ("a", "b", "a")]
+    if tier == "thorough":
+        orders += [("a", "b", "c"), ("c", "a", "b", "a"), ("b", "b", "a")]
+    script, expect = [], []      # expect: per script line None or (layout, mtimes, order, step, file)
+    try:
+        os.makedirs(os.path.join(work, "xdg-gv"))
+        path = {}
+        for layout in ("dirs", "same"):
+            for i, n in enumerate(names):
+                d = os.path.join(work, layout, n if layout == "dirs" else "all")
+                os.makedirs(d, exist_ok=True)
+                path[(layout, n)] = os.path.join(d, n + ".go")
+                open(path[(layout, n)], "w").write(FILE_PROG % {"n": n.upper(), "k": i + 2 + tag % 7, "marker": marker[n]})
+        nout = [0]
+
+        def build(layout, n, mode, info):
+            nout[0] += 1
+            f = path[(layout, n)]
+            script.append("build %s %s %s %s %s" % (f, os.path.dirname(f), os.path.join(work, "out%d.js" % nout[0]), mode, marker[n]))
+            expect.append(info)
+
+        def step(line):
+            script.append(line)
+            expect.append(None)
+
+        for layout in ("dirs", "same"):
+            for n in names:
+                step("touch %s -86400" % path[(layout, n)])
+                build(layout, n, "nocache", ("ref", layout, n))
+            for mt in ("older", "newer", "mixed") if tier == "thorough" else ("older", "newer"):
+                for order in orders:
+                    step("clear")
+                    for n in names:
+                        step("touch %s -86400" % path[(layout, n)])
+                    for k, n in enumerate(order):
+                        if k > 0 and (mt == "newer" or (mt == "mixed" and chk.rng.random() < 0.5)):
+                            step("touch %s %d" % (path[(layout, n)], 60 * k))     # edited after the entries were written
+                        build(layout, n, "cache", ("seq", layout, mt, "".join(order), k, n))
+        p = run_gvh(["buildseq"], script, timeout=1800, extra_env={"XDG_CACHE_HOME": os.path.join(work, "xdg-gv")})
+        if p.returncode != 0:
+            raise RuntimeError("gvh_c20 buildseq failed: " + p.stderr[-2000:])
+        out = p.stdout.strip().split("\n")
+        if len(out) != len(script):
+            raise RuntimeError("gvh_c20 buildseq answered %d lines for %d steps" % (len(out), len(script)))
+    finally:
+        shutil.rmtree(work, ignore_errors=True)
+    ref, nseq, main_hits = {}, 0, 0
+    for line, info in zip(out, expect):
+        if info is None:
+            continue
+        r = parse_build(line)
+        if info[0] == "ref":
+            if "error" in r or r.get("marker") != "1":
+                raise RuntimeError("file-mode reference build failed: %s" % line)
+            ref[(info[1], info[2])] = r["sha256"]
+            continue
+        _, layout, mt, order, k, n = info
+        nseq += 1
+        op = "file-mode layout=%s mtimes=%s order=%s step=%d: BuildFiles(%s.go) with the cache enabled, fresh session" % (layout, mt, order, k, n)
+        chk.add_case("transparency", op, True, "filemode:%s:%s" % (layout, mt))
+        got = r.get("sha256") or "error:" + r.get("error", "?")[:200]
+        if got != ref[(layout, n)] or r.get("marker") != "1":
+            chk.add_mismatch("transparency", op, "%s marker=%s hits=%s" % (got[:16], r.get("marker"), r.get("hitlist")),
+                             "%s marker=1 (the no-cache build of %s.go)" % (ref[(layout, n)][:16], n),
+                             signature="C20 file-argument-mode build-returns-other-program")
+        if "main" in (r.get("hitlist") or "").split(","):
+            main_hits += 1
+            chk.add_mismatch("transparency", op, "ad-hoc package \"main\" loaded from the cache", "never loaded (sources always newer)",
+                             signature="C20 adhoc-main-package-loaded-from-cache")
+    chk.extra["file_mode"] = {"cached_builds": nseq, "programs": len(names), "adhoc_main_cache_hits": main_hits,
+                              "note": "gopherjs run x.go uses the same Session.BuildFiles with a temp output path"}
+
+
 def run_transparency(chk, tier):
     variants = [("plain", PROG.replace("SEED", str(chk.rng.randrange(1000))), [])]
     if tier == "thorough":
@@ -720,7 +816,10 @@ def run(tier, seed):
                 "AST node kind) -> outcome must be miss or identical content, and every damaged file is also loaded with source times "
                 "build time +1ns/+1s/+1h/+1y -> must miss (a damaged entry is never accepted as fresh); SIGKILL at the N-th write/close/rename/openat/chmod "
                 "syscall of Store in a child process (strace), then a fresh process loads. (c) JS of a program over all packages "
-                "that compile here built without cache, with a cold cache, a warm cache (fresh process), truncated entries. A case "
+                "that compile here built without cache, with a cold cache, a warm cache (fresh process), truncated entries; FILE-ARGUMENT "
+                "mode (Session.BuildFiles, ad-hoc package \"main\"): sequences a,b / b,a / a,b,a over single-file programs in different and "
+                "in the same directory, fresh sessions sharing one cache, file mtimes older/newer than the entries, each build == "
+                "no-cache build of the same file. A case "
                 "is non-trivial when its op line is distinct.")
     chk.trusted = ["Lean 4.33 kernel; axioms at most propext, Classical.choice, Quot.sound (listed per theorem)",
                    "GV.Model.Cache / GV.Model.PathClean are hand transcriptions of build/cache/cache.go and GOROOT/src/path/path.go, "
@@ -742,7 +841,7 @@ def run(tier, seed):
     phases = {}
     cpu = {}
     only = os.environ.get("VERIF_C20_PHASES")     # development aid: comma-separated subset of phase names
-    for f in (run_string_ties, run_key_ties, run_faults, run_crash, run_transparency):
+    for f in (run_string_ties, run_key_ties, run_faults, run_crash, run_transparency, run_file_mode):
         if only and f.__name__[4:] not in only.split(","):
             continue
         t0 = time.time()
